@@ -907,7 +907,7 @@ def _case(draw, tier, names):
     if len(tbl) > 1:
         # (addfieldusingcontext's test function nests the previous row's value: depth grows with the row count;
         #  sortheader / accessors building namedtuples stay narrow)
-        b = draw(scale.blowup(sizes=[65, 130] if name == "addfieldusingcontext" else None, wide=not dup and name not in ("setheader", "extendheader", "pushheader")))
+        b = scale.derive(c, sizes=[65, 130] if name == "addfieldusingcontext" else None, wide=name not in ("setheader", "extendheader", "pushheader"), tier=tier)
         if b:
             c["blowup"] = b
     return c
